@@ -8,16 +8,18 @@ def showScan : Option (Txt × Txt) → String
   | none => "none"
   | some (m, r) => showBytes m ++ " " ++ showBytes r
 
-/-- template text: `%a`/`%b` = literal of A/B observed raw (`str(token)[1:-1]`), `%A`/`%B` = observed decoded -/
+/-- template text: `%a`/`%b` = literal of A/B observed raw (`str(token)[1:-1]`), `%A`/`%B` = observed decoded,
+`%x`/`%y` = literal of A/B present in the text but not observed (e.g. inside a comment) -/
 inductive Seg
   | txt (c : UInt8)
-  | lit (second : Bool) (decoded : Bool)
+  | lit (second : Bool) (mode : Nat)
 
 def parseTemplate : Txt → Option (List Seg)
   | [] => some []
   | 37 :: k :: rest =>
-    match (if k = 97 then some (Seg.lit false false) else if k = 98 then some (Seg.lit true false)
-           else if k = 65 then some (Seg.lit false true) else if k = 66 then some (Seg.lit true true) else none),
+    match (if k = 97 then some (Seg.lit false 0) else if k = 98 then some (Seg.lit true 0)
+           else if k = 65 then some (Seg.lit false 1) else if k = 66 then some (Seg.lit true 1)
+           else if k = 120 then some (Seg.lit false 2) else if k = 121 then some (Seg.lit true 2) else none),
           parseTemplate rest with
     | some s, some r => some (s :: r)
     | _, _ => none
@@ -32,12 +34,13 @@ def renderSeg (la lb : Txt) : Seg → Txt
 def walk (la lb : Txt) : List Seg → Option (List String)
   | [] => some []
   | .txt _ :: segs => walk la lb segs
-  | .lit second decoded :: segs =>
+  | .lit _ 2 :: segs => walk la lb segs
+  | .lit second mode :: segs =>
     let tail := segs.flatMap (renderSeg la lb)
     match lexLiteral ((if second then lb else la) ++ tail), walk la lb segs with
     | some (body, dec, rest), some more =>
       if rest = tail then
-        some ((if decoded then showPy showBytes dec else "ok " ++ showBytes body) :: more)
+        some ((if mode = 1 then showPy showBytes dec else "ok " ++ showBytes body) :: more)
       else none
     | _, _ => none
 
@@ -71,6 +74,10 @@ def step : List String → String
     | some v => showBytes (valueToString v) ++ " " ++ showPy showBytes (stringTokenToBytes (valueToString v))
                   ++ " " ++ showScan (scanString (valueToString v))
     | none => "bad-op"
+  | ["tok", v, r] =>
+    match bytesTok v, bytesTok r with
+    | some v, some r => showScan (scanString (valueToString v ++ r))
+    | _, _ => "bad-op"
   | ["dec", t] =>
     match bytesTok t with
     | some t => showPy showBytes (stringTokenToBytes t)
